@@ -188,29 +188,32 @@ impl Float {
 
     /// Cast to another float using the non-default rounding mode `rm`.
     pub fn cast_with_rm(&self, to: Semantics, rm: RoundingMode) -> Float {
-        let mut loss = LossFraction::ExactlyZero;
+        // Zero, Inf and NaN keep their category and sign (and carry no
+        // exponent or mantissa).
+        match self.get_category() {
+            Category::Zero => return Float::zero(to, self.get_sign()),
+            Category::Infinity => return Float::inf(to, self.get_sign()),
+            Category::NaN => return Float::nan(to, self.get_sign()),
+            Category::Normal => {}
+        }
+        // The significand keeps its bits, only the position of the binary
+        // point moves with the precision. Normalization in the destination
+        // format shifts the bits into place (to the left for subnormal
+        // sources, to the right when narrowing) and rounds exactly once.
         let exp_delta =
             self.get_mantissa_len() as i64 - to.get_mantissa_len() as i64;
-        let mut temp = self.clone();
-        // If we are casting to a narrow type then we need to shift the bits
-        // to the new-mantissa part of the word. This will adjust the exponent,
-        // and if we lose bits then we'll need to round the number.
-        if exp_delta > 0 {
-            loss = temp.shift_significand_right(exp_delta as u64);
-        }
-
         let mut x = Float::raw(
             to,
-            temp.get_sign(),
-            temp.get_exp() - exp_delta,
-            temp.get_mantissa(),
-            temp.get_category(),
+            self.get_sign(),
+            self.get_exp() - exp_delta,
+            self.get_mantissa(),
+            self.get_category(),
         );
         // Don't normalize if this is a nop conversion.
         if to.get_exponent_len() != self.get_exponent_len()
             || to.get_mantissa_len() != self.get_mantissa_len()
         {
-            x.normalize(rm, loss);
+            x.normalize(rm, LossFraction::ExactlyZero);
         }
         x
     }
